@@ -55,7 +55,7 @@ CLAIMS = {
  "C19": ("Theorem for every document: the visitor returns an error, or an array with the shape invariant whose dimensions and cells are stated by entries of the document (a repeated data key overwrites) - never a panic; overflowing, length-mismatching and one-zero-dimension documents are rejected. Correspondence: grammar-generated documents (missing/duplicate/unknown/escaped keys, boundary and ill-typed dimension values, wrong lengths and element types, non-objects) through all four transports, parsed by an independent JSON reader in the driver.",
          "serde_json parsing assumed; serde_json::Value de-duplicates keys (last wins), which the driver mirrors for the value transport",
          "Lean 4 proof (decision logic over all documents) + differential correspondence"),
- "C05": ("Accounting theorems (ownership by position; List.Perm over an arbitrary element type): insert_row/insert_col add exactly the supplied items; remove_row/remove_col keep exactly the other cells and hand out / drop exactly the removed line; every cell permutation of a view conserves the whole buffer; overwrites keep the length (one cell leaves per cell that enters); parts of a permutation of a duplicate-free list are pairwise disjoint (never twice, never while reachable). PARTIAL: that Rust runs Drop exactly where the model says is established only on explored histories, by the harness's drop ledger (per-step dropped values, live count, double-drop counter) compared with the model's prediction on random and exhaustive histories over ledgered cells and zero-sized elements, and at the final drop of every case.",
+ "C05": ("Accounting theorems (ownership by position; List.Perm over an arbitrary element type): insert_row/insert_col add exactly the supplied items; remove_row/remove_col keep exactly the other cells and hand out / drop exactly the removed line; every cell permutation of a view conserves the whole buffer; overwrites keep the length (one cell leaves per cell that enters); parts of a permutation of a duplicate-free list are pairwise disjoint (never twice, never while reachable); and across ANY history of operations (incl. rejected calls and panicking iterator scripts): final cells ++ everything that left the array is a permutation of initial cells ++ everything supplied (C05_history_conserves). PARTIAL: that Rust runs Drop exactly where the model says is established only on explored histories, by the harness's drop ledger (per-step dropped values, live count, double-drop counter) compared with the model's prediction on random and exhaustive histories over ledgered cells and zero-sized elements, and at the final drop of every case.",
          "destructor execution, mem::forget and Vec's own drop glue are runtime behaviour outside the model; observed through the ledger",
          "Lean 4 proof of conservation laws (multiset permutations) + ledger-instrumented differential correspondence"),
  "C11": ("Theorems for the crate's own critical sections: insert_row / insert_col with ANY iterator script (items and panics in any order, any claimed length), any capacity, both modes: never ub; in every outcome the array satisfies the shape invariant; array cells + leaked + items still held by the caller are a permutation of old cells + supplied items. DrainCol's drop loop with a panicking element destructor ends in exactly the state of a normal drop (DropGuard). Sorts call caller code only before touching the array. PARTIAL: panics inside Vec's own operations (resize_with, vec!, fill, clone, drain, clear) and unwinding itself are assumed components; they are exercised for real by fault injection (k-th Clone/Drop/Default/comparator/key call panics, for every k, on all shapes <= 3x3) and judged by the property oracle (shape invariant, no double drop then or at the final drop, every reachable cell known, array still usable for read / push / pop / drop).",
